@@ -656,6 +656,11 @@ func C01Signature(v *Violation, fm *FactMonitor) string {
 	if v.Kind == "mbounds" && v.Node != nil {
 		return "op-bounds:" + BoundsShape(v.Node)
 	}
+	if v.Kind == "load-range" {
+		// A refined element that was never stored to: the root cause is the
+		// declaration of the object, not the statement that reads it.
+		return "obligation:load-range:" + v.Obj
+	}
 	shape := StmtShape(v.Stmt)
 	if v.Where != "stmt" && v.Where != "" {
 		shape = v.Where
